@@ -178,7 +178,15 @@ def run(ctx):
         selftest(ctx, events)
     ctx.assumptions.append("observation happens at block boundaries only (the statement's scope); 'no balance is ever negative' is judged there")
     ctx.assumptions.append("Transfer events are those of the native NEO and GAS contracts in HALT executions (OnPersist, transactions, PostPersist), read from the stored AppExecResults")
-    ctx.assumptions.append("reward / claim / fee amounts are not predicted: only conservation is judged")
+    ctx.assumptions.append("reward / claim / fee amounts are not predicted by the token laws: only conservation is judged there (the governance extension judges elections and reward amounts)")
+    # extension: governance - elections, committee / primary rewards, claims (spec/governance, harness/c05gov)
+    ep = os.path.join(os.path.dirname(os.path.abspath(__file__)), "c05_gov.py")
+    if os.path.exists(ep):
+        import importlib.util
+        sp = importlib.util.spec_from_file_location("check_c05_gov", ep)
+        m = importlib.util.module_from_spec(sp)
+        sp.loader.exec_module(m)
+        m.run_ext(ctx)
 
 
 def selftest(ctx, events):
